@@ -400,14 +400,17 @@ COMMON_REAL = [
 COMMON_STUB = [
     "event-loop scheduler and clock (SimLoop: virtual time, FIFO ready queue, step hook)",
     "TCP (SimNet: ordered byte streams, seeded latency/fragmentation, resets)",
-    "OS signals, thread pools (inline at a seeded delay)",
+    "OS signals; thread/process pools (kernel.SimExecutor: a function body runs as one step after a seeded start delay, keeps "
+    "its thread busy for the virtual duration it declares, cannot be cancelled; joining the pool blocks the loop until then)",
+    "process time zone (TZ/tzset per run: UTC, Asia/Tokyo, America/Phoenix - derived from the run seed)",
+    "aiormq FutureStore's set of waiters (insertion-ordered, seeded pop) - address-ordered in the real client",
     "uuid4 / random as seen from repid (seeded)",
     "Redis server (SimRedis, RESP2 subset) and RabbitMQ server (SimRabbit, AMQP 0-9-1 subset)",
 ]
 COMMON_ASSUMPTIONS = [
     "SimRedis / SimRabbit implement the documented command semantics listed in DESIGN.md section 4",
     "asyncio ready queue is FIFO and timers with equal deadlines fire in creation order",
-    "PYTHONHASHSEED=0, TZ=UTC (the check re-executes itself with both)",
+    "PYTHONHASHSEED=0, TZ=UTC at start (the check re-executes itself with both; a run then sets its own seeded time zone)",
     "sampling, not proof: a clean batch is evidence only for the seeds explored",
 ]
 
